@@ -19,8 +19,8 @@ REAL_REPLAY = False
 STUBS = []
 ASSUMPTIONS = ['units have variable-size port lists (1-3 inlets/outlets arise from the graph); a unit without inlet gets a feed, without outlet a product',
                'set iteration order inside thermosteam depends on object addresses: a violation is replayed in a fresh process and reported only if it reproduces there']
-OUTSIDE = ['more than 4 (quick) / 5 (thorough) units', 'more than 2 back edges', 'auxiliary units, interaction units, systems']
-BOUNDS = {'quick': dict(units='2..4', orders='all permutations', back_edges='0..1'),
+OUTSIDE = ['more than 4 units in every labelling (quick) / 5 (thorough); 6 units only in topological labellings with at most 2 (quick) / 3 (thorough) ports per side', 'more than 6 units', 'more than 2 back edges', 'auxiliary units, interaction units, systems']
+BOUNDS = {'quick': dict(units='2..4 (+ 6: topologically labelled DAGs, <= 7 edges, <= 2 ports per side, rotations + reversal of the unit list)', orders='all permutations', back_edges='0..1'),
           'thorough': dict(units='2..5 (5: DAGs with <= 6 edges, rotations of the unit list)', orders='all permutations (<=4 units)', back_edges='0..2')}
 _cls = {}
 _graphs = {}
@@ -55,9 +55,11 @@ def connected(n, edges):
     return len(seen) == n
 
 
-def dags(n, max_edges=None, max_deg=3):
-    """all connected DAGs on n labelled nodes with in/out degree <= max_deg (z3 AllSAT)"""
-    key = (n, max_edges, max_deg)
+def dags(n, max_edges=None, max_deg=3, canonical=False):
+    """all connected DAGs on n labelled nodes with in/out degree <= max_deg (z3 AllSAT).
+    canonical=True: one labelling per topological order only (edges i -> j with i < j); the labelled
+    orders in which the units are SUPPLIED are still varied by the caller"""
+    key = (n, max_edges, max_deg, canonical)
     if key in _graphs:
         return _graphs[key]
     s = z3.Solver()
@@ -70,6 +72,8 @@ def dags(n, max_edges=None, max_deg=3):
         s.add(z3.Sum([z3.If(e[j][i], 1, 0) for j in range(n) if j != i]) <= max_deg)
     for i, j in pairs:
         s.add(z3.Implies(e[i][j], r[i] < r[j]))
+    if canonical:
+        s.add(*[r[i] == i for i in range(n)])
     if max_edges is not None:
         s.add(z3.Sum([z3.If(e[i][j], 1, 0) for i, j in pairs]) <= max_edges)
     vs = [e[i][j] for i, j in pairs]
@@ -150,11 +154,11 @@ def orders(E, n, all_perms):
     return perms[E.choice(len(perms), 'unit-order')]
 
 
-def g_acyclic(ns, all_perms=True, max_edges=None):
+def g_acyclic(ns, all_perms=True, max_edges=None, max_deg=3, canonical=False):
     def run(E):
         Network = tmo.network.Network
         n = E.pick(ns, 'n-units')
-        G = dags(n, max_edges)
+        G = dags(n, max_edges, max_deg, canonical)
         edges = G[E.choice(len(G), 'flowsheet')]
         perm = orders(E, n, all_perms)
         us, streams = build(n, edges)
@@ -228,6 +232,10 @@ def groups(tier):
         'acyclic': (g_acyclic([2, 3, 4]), dict(max_paths=5000000, witnesses=4)),
         'cyclic-1-back-edge': (g_cyclic([2, 3] if q else [2, 3, 4], [1]), dict(max_paths=5000000, witnesses=4)),
     }
+    # 6 units: topologically labelled flowsheets only (the outlet order of a unit follows the labels), unit list
+    # supplied in every rotation and reversed
+    g['acyclic-6-units'] = (g_acyclic([6], all_perms=False, max_edges=7 if q else None, max_deg=2 if q else 3, canonical=True),
+                            dict(max_paths=20000000, witnesses=4))
     if not q:
         g['acyclic-5-units'] = (g_acyclic([5], all_perms=False, max_edges=6), dict(max_paths=20000000, witnesses=4))
         g['cyclic-2-back-edges'] = (g_cyclic([3, 4], [2], all_perms=True), dict(max_paths=20000000, witnesses=4))
